@@ -16,7 +16,7 @@ EXT = {"edif": ".edf", "verilog": ".v", "eblif": ".eblif"}
 HUGE_NUMBER = re.compile(r"\d{5,}")
 KINDS = ["truncate", "truncate", "delete", "duplicate", "replace", "replace", "swap", "dangling", "dangling",
          "unsupported", "all-truncations", "garbage", "recursive", "recursive", "dup-construct",
-         "dup-construct"]
+         "dup-construct", "unopenable"]
 JUNK = ["(", ")", "0", "zz", '"s"', "cell", "net", "module", "endmodule", ";", ",", ".", "[", "]", "{", "}",
         ".model", ".end", ".subckt", "=", "\\", "`celldefine", "(*", "*)", "assign", "wire", "#"]
 
@@ -61,6 +61,13 @@ def join(fmt, toks):
 def parse_string(fmt, text):
     import spydrnet as sdn
 
+    if isinstance(text, (tuple, list)):
+        # an input that cannot even be opened: a missing path or a directory with the right extension
+        with tempfile.TemporaryDirectory() as td:
+            path = os.path.join(td, "t" + EXT[fmt])
+            if text[1] == "directory":
+                os.mkdir(path)
+            return sdn.parse(path)
     with tempfile.TemporaryDirectory() as td:
         path = os.path.join(td, "t" + EXT[fmt])
         with open(path, "w") as fh:
@@ -270,6 +277,8 @@ class C15(Prop):
         if kind == "garbage":
             return [(join(fmt, toks[:i]) + " \x00\x07 %s ((( " % JUNK[w % len(JUNK)] + join(fmt, toks[i:]),
                      False, "garbage")]
+        if kind == "unopenable":
+            return [(("PATH", "missing" if w % 2 else "directory"), True, "unopenable")]
         if kind == "dup-construct":
             # a whole declaration written twice (same identifier again): to be refused, or read into
             # a well-formed netlist
@@ -402,13 +411,13 @@ class C15(Prop):
             sdn.namespace_manager.default = before
         if raised is None:
             if must_raise:
-                res.violate("C15:%s:accepted-%s" % (fmt, label), text[:600])
+                res.violate("C15:%s:accepted-%s" % (fmt, label), str(text)[:600])
             if nl is None:
                 res.violate("C15:%s:returned-none" % fmt, label)
             else:
                 for code, detail in model.wf(nl, strict=True):
                     res.violate("C15:%s:accepted-text-gives-ill-formed-netlist:%s" % (fmt, code),
-                                "%s (%s)\n%s" % (detail, label, text[:800]))
+                                "%s (%s)\n%s" % (detail, label, str(text)[:800]))
                     break
         return raised
 
